@@ -630,6 +630,10 @@ class ExcAnalysis:
                 ob(n, 'subscript', 'IndexError', text,
                    discharged=f'parameter `{recv.id}` is non-empty at every call site of {fn.qualname}')
                 return
+            why = self._param_path_nonempty(fn, recv)
+            if why:
+                ob(n, 'subscript', 'IndexError', text, discharged=why)
+                return
             ob(n, 'subscript', 'IndexError', text + ' on a possibly empty sequence')
             return
         why = self._bounded_index(fn, recv, idx, n)
@@ -1143,6 +1147,33 @@ class ExcAnalysis:
                     return (f'class invariant of {t[1].split(".")[-1]}: __post_init__ rejects an empty `{key}` '
                             f'(guard verified on this run)')
         return None
+
+    def _param_path_nonempty(self, fn: FuncInfo, recv: ast.expr) -> Optional[str]:
+        """recv == <p>.<path> with p a parameter that the function does not rebind: at every call of the function in the package
+        (at least one) the argument handed in for p makes <argument>.<path> non-empty by a class invariant (the value was a field of
+        a validated record before it was handed on)."""
+        path: List[str] = []
+        e = recv
+        while isinstance(e, ast.Attribute):
+            path.insert(0, e.attr)
+            e = e.value
+        params = [a.arg for a in fn.params()]
+        if not path or not isinstance(e, ast.Name) or e.id not in params or e.id in ('self', 'cls') or e.id in self.cg.env(fn)._assign_sites:
+            return None
+        callers = [(c_, n_) for c_, n_, k_ in self.cg.callers(fn) if k_ == 'call' and isinstance(n_, ast.Call)]
+        if not callers:
+            return None
+        for cfn, cnode in callers:
+            arg = self.prog.bind_call(cfn.module, cnode, fn).get(e.id)
+            if arg is None:
+                return None
+            sub: ast.expr = arg
+            for a_ in path:
+                sub = ast.copy_location(ast.Attribute(value=sub, attr=a_, ctx=ast.Load()), cnode)
+            if not self._invariant_nonempty(cfn, sub, cnode):
+                return None
+        return (f'at every call of {fn.qualname} ({len(callers)}) the argument for `{e.id}` is a field of a validated record: '
+                f'`.{".".join(path)}` is non-empty by class invariant')
 
     def _param_nonempty_everywhere(self, fn: FuncInfo, pname: str) -> bool:
         key = (fn.fq, pname)
@@ -1766,6 +1797,14 @@ class ExcAnalysis:
             if pl is not None and isinstance(rhs, ast.Constant) and rhs.value is None and \
                     isinstance(op, (ast.Is, ast.IsNot, ast.Eq, ast.NotEq)):
                 return ('none', pl, pol if isinstance(op, (ast.Is, ast.Eq)) else not pol)
+            if pl is not None and isinstance(op, (ast.Lt, ast.LtE, ast.Gt, ast.GtE, ast.Eq, ast.NotEq)):
+                # a number compared with a constant: decided where the argument is a constant (a literal, the default value)
+                cv = rhs.operand.value if (isinstance(rhs, ast.UnaryOp) and isinstance(rhs.op, ast.USub) and isinstance(rhs.operand, ast.Constant)) \
+                    else rhs.value if isinstance(rhs, ast.Constant) else None
+                if isinstance(cv, (int, float)) and not isinstance(cv, bool):
+                    if isinstance(rhs, ast.UnaryOp):
+                        cv = -cv
+                    return ('cmp', pl, (type(op).__name__, cv), pol)
             if pl is not None and isinstance(op, (ast.Eq, ast.NotEq, ast.Is, ast.IsNot)):
                 sym = self.prog.resolve_expr_symbol(fn.module, rhs)
                 if isinstance(sym, tuple) and sym[0] == 'enum_member':
@@ -1892,6 +1931,16 @@ class ExcAnalysis:
             if len(truths) == 1 and None not in truths:
                 t_ = truths.pop()
                 return YES if (t_ == YES) == pol else NO
+        if kind == 'cmp':
+            av = arg.operand.value if (isinstance(arg, ast.UnaryOp) and isinstance(arg.op, ast.USub) and isinstance(arg.operand, ast.Constant)) \
+                else arg.value if isinstance(arg, ast.Constant) else None
+            if isinstance(av, (int, float)) and not isinstance(av, bool):
+                if isinstance(arg, ast.UnaryOp):
+                    av = -av
+                opn, cv = atom[2]
+                truth = {'Lt': av < cv, 'LtE': av <= cv, 'Gt': av > cv, 'GtE': av >= cv, 'Eq': av == cv, 'NotEq': av != cv}[opn]
+                return YES if truth == pol else NO
+            return MAYBE
         v = A.at(cfn, arg, cnode)
         if kind == 'none' and v.none == MAYBE and isinstance(arg, ast.Attribute) and cnode is not None:
             # `X.f` handed on under `X.g == Enum.M`: constructor-site correlation (as for a dereference of X.f)
@@ -2555,6 +2604,9 @@ class ExcAnalysis:
             return f'{atom[1]}(`{arg}`) is {pol}'
         if atom[0] == 'enumeq':
             return f'`{arg}` {"==" if pol else "!="} {atom[2][1]}'
+        if atom[0] == 'cmp':
+            sym_ = {'Lt': '<', 'LtE': '<=', 'Gt': '>', 'GtE': '>=', 'Eq': '==', 'NotEq': '!='}[atom[2][0]]
+            return f'`{arg}` {sym_} {atom[2][1]} is {pol}'
         if atom[0] == 'typekey':
             return f'the class of `{arg}` is {"" if pol else "not "}one of {", ".join(k.split(".")[-1] for k in atom[2])}'
         return str(atom)
